@@ -141,9 +141,24 @@ fn describe(r: &Reader) -> Value {
     desc
 }
 
-fn read_asset(a: &Asset, fl: &str, rt: &tokio::runtime::Runtime) -> Value {
+fn read_asset(a: &Asset, fl: &str, rt: &tokio::runtime::Runtime) -> Value { read_asset_p(a, fl, rt, 0) }
+
+/// the context of a read under a trust profile: 0 = the fixture anchors, 1 = no anchors at all, 2 = no anchors but the fixture
+/// roots as USER anchors (same trust_anchors as profile 1, more trust)
+fn profile_ctx(profile: u64) -> c2pa::Context {
+    match profile {
+        0 => ctx(&settings_json()),
+        _ => {
+            let mut s = c2pa::Settings::new().with_json(&json!({"builder": {"thumbnail": {"enabled": false}}, "verify": {"remote_manifest_fetch": false}}).to_string()).expect("settings");
+            if profile == 2 { s.trust.user_anchors = settings(&Value::Null).trust.trust_anchors.clone(); }
+            c2pa::Context::new().with_settings(s).expect("context")
+        }
+    }
+}
+
+fn read_asset_p(a: &Asset, fl: &str, rt: &tokio::runtime::Runtime, profile: u64) -> Value {
     let r = catch(AssertUnwindSafe(|| {
-        let c = ctx(&settings_json());
+        let c = profile_ctx(profile);
         let rd = Reader::from_context(c);
         let res = if fl == "async" { rt.block_on(rd.with_stream_async(a.mime, Cursor::new(a.bytes.clone()))) } else { rd.with_stream(a.mime, Cursor::new(a.bytes.clone())) };
         match res { Ok(r) => describe(&r), Err(e) => json!({"err": err_kind(&e)}) }
@@ -292,9 +307,10 @@ pub fn run(args: &[String]) {
                 }
                 "R" => {
                     let i = o["i"].as_u64().unwrap() as usize;
-                    let d = read_asset(&lib[i - 1], fl, &rt);
-                    let same = d["norm"] == first_read[i - 1]["norm"] && d.get("err") == first_read[i - 1].get("err");
-                    steps.push(json!({"op": "R", "i": i, "fl": fl, "same_as_first": same, "state": d["state"], "err": d.get("err"), "norm_text": if same || !full { Value::Null } else { d["norm_text"].clone() }}));
+                    let profile = o["arch"].as_u64().unwrap_or(0);
+                    let d = read_asset_p(&lib[i - 1], fl, &rt, profile);
+                    let same = profile != 0 || (d["norm"] == first_read[i - 1]["norm"] && d.get("err") == first_read[i - 1].get("err"));
+                    steps.push(json!({"op": "R", "i": i, "fl": fl, "profile": profile, "same_as_first": same, "state": d["state"], "norm": d["norm"], "err": d.get("err"), "norm_text": if same || !full { Value::Null } else { d["norm_text"].clone() }}));
                 }
                 "L" => {
                     // deprecated thread-local settings: trust disabled, verification after reading off -- must not leak into Context-based calls
